@@ -17,7 +17,7 @@ from typing import Any, Callable, Dict, List, Optional, Tuple
 
 import numpy as np
 
-from . import project
+from . import model_obs, project
 
 JOINT_CAP = 600          # largest joint dimension for which the before/after density is compared
 
@@ -350,6 +350,14 @@ def _wrap(cls: Any, name: str, entry: str) -> None:
                 pass
         arrays = _array_args(args, kwargs)
         before = [project.digest(x) for x in arrays]
+        # requests for which the specification's rule can be evaluated on floats (model_obs.py)
+        mdl_op = mdl_sid = mdl_a = None
+        if name == "apply_operation" and len(addr) == 1:
+            opobj = next((x for x in args if type(x).__name__ == "Operation"), None)
+            tname = getattr(getattr(opobj, "_operation_type", None), "name", "")
+            if tname in ("Displace", "Squeeze") and type(getattr(opobj, "_operation_type", None)).__name__ == "FockOperationType":
+                mdl_op, mdl_sid = (tname, dict(getattr(opobj, "kwargs", {}) or {})), addr[0]
+                mdl_a = model_obs.reduced_state(REG, mdl_sid)
         pre = projection()
         need_joint = ev["a"] in NEEDS_JOINT
         jpre = _joint(REG)
@@ -374,6 +382,14 @@ def _wrap(cls: Any, name: str, entry: str) -> None:
             post = projection()
             jpost = _joint(REG)
             ev["jc"] = _joint_cmp(jpre, jpost) if (need_joint or ev["res"] == "exc") else "skip"
+            ev["mdl"] = dict(model_obs.NONE)
+            try:
+                if ev["res"] == "ok" and mdl_op is not None:
+                    ev["mdl"] = model_obs.cut_obs(mdl_a, model_obs.reduced_state(REG, mdl_sid), mdl_op[0], mdl_op[1])
+                elif ev["res"] == "ok" and name == "apply_kraus" and args and isinstance(args[0], (list, tuple)):
+                    ev["mdl"] = model_obs.kraus_obs(jpre, jpost, list(addr), list(args[0]))
+            except Exception:  # noqa: BLE001   an observation that cannot be made is not a verdict
+                ev["mdl"] = dict(model_obs.NONE)
             ev["draws"] = list(_draws)
             ev["keysrc"] = "none" if not _keysrc else ("config" if all(k == "config" for k in _keysrc) else "other")
             after = [project.digest(x) for x in arrays]
